@@ -224,7 +224,9 @@ func AllBlockedOnChannels(gs []Goroutine) bool {
 			st = st[:i]
 		}
 		switch st {
-		case "chan send", "chan receive", "select", "chan send (nil chan)", "chan receive (nil chan)", "select (no cases)":
+		case "chan send", "chan receive", "select", "chan send (nil chan)", "chan receive (nil chan)", "select (no cases)",
+			"semacquire", "sync.WaitGroup.Wait", "sync.Cond.Wait", "sync.Mutex.Lock", "sync.RWMutex.Lock", "sync.RWMutex.RLock":
+			// parked on a channel or on a sync primitive: only another goroutine can wake it
 		default:
 			return false
 		}
